@@ -61,7 +61,7 @@ class WrongCopy(Exception):
 
 def child_env(extra: dict | None = None) -> dict:
     env = dict(os.environ)
-    pp = [REPO_SRC, VERIF]
+    pp = [REPO_SRC, VERIF, os.path.join(VERIF, "vlib", "inject")]
     env["PYTHONPATH"] = os.pathsep.join(pp)
     env["PYTHONDONTWRITEBYTECODE"] = "1"
     env["PYTHONHASHSEED"] = "0"
@@ -70,6 +70,24 @@ def child_env(extra: dict | None = None) -> dict:
     if extra:
         env.update(extra)
     return env
+
+
+class worker_noise:
+    """context manager: real workers started inside get line-level schedule noise (see vlib/inject/sitecustomize.py)"""
+
+    def __init__(self, seed: int, p: float = 0.02, max_sleep_ms: float = 20.0):
+        self.spec = f"noise:{seed}:{p}:{max_sleep_ms}"
+
+    def __enter__(self):
+        self.old = os.environ.get("EXECNET_VERIF")
+        os.environ["EXECNET_VERIF"] = self.spec
+        return self
+
+    def __exit__(self, *a):
+        if self.old is None:
+            os.environ.pop("EXECNET_VERIF", None)
+        else:
+            os.environ["EXECNET_VERIF"] = self.old
 
 
 def h64(*parts) -> str:
